@@ -598,6 +598,10 @@ class ConstEval:
                 import calendar as _calendar
                 v_ = getattr(_calendar, e.attr)
                 return list(v_) if isinstance(v_, list) else v_
+            if isinstance(base, Opaque) and e.attr == "pattern" and hasattr(self, "regex_of"):
+                pat_ = self.regex_of(base, mod)
+                if pat_ is not None:
+                    return pat_
             if isinstance(base, Opaque):
                 raise NotConstant(f"attribute of {base}")
             t = type(base)
